@@ -139,14 +139,15 @@ def render_modules(nodes: dict, per_module: int) -> list[dict]:
         need = set(chunk)
         for nid in chunk:
             need.update(nodes[nid].path)
-        lines, where = [], {}
+        lines, where, every = [], {}, {}
         for nid in sorted(need):
             nd = nodes[nid]
             names = ["object" if b == 0 else f"K{nd.path[b - 1]}" for b in nd.written]
             lines.append(f"class K{nid}({', '.join(names)}): pass" if names else f"class K{nid}: pass")
+            every[len(lines)] = nid
             if nid >= chunk[0]:
                 where[len(lines)] = nid
-        out.append({"name": f"mro_m{len(out)}", "text": "\n".join(lines) + "\n", "where": where})
+        out.append({"name": f"mro_m{len(out)}", "text": "\n".join(lines) + "\n", "where": where, "every": every})
     return out
 
 
@@ -183,6 +184,53 @@ def mypy_worker(inp: str, outp: str) -> None:
     json.dump(out, open(outp, "w"))
 
 
+class MypyCrash(Exception):
+    """mypy itself failed on generated class statements: (class id, error text)"""
+
+    def __init__(self, nid, text):
+        super().__init__(text)
+        self.nid, self.text = nid, text
+
+
+def _worker(ctx: Ctx, mods: list[dict], tag: str):
+    """-> (results | None, error text)"""
+    inp, outp = os.path.join(ctx.tmp, f"mro_in{tag}.json"), os.path.join(ctx.tmp, f"mro_out{tag}.json")
+    json.dump(mods, open(inp, "w"))
+    try:
+        p = subprocess.run([PY, "-c", "import sys; from harness.c12.mro import mypy_worker; mypy_worker(sys.argv[1], sys.argv[2])",
+                            inp, outp], cwd=VERIF, env=repo_env(), capture_output=True, text=True, timeout=3000)
+    except subprocess.TimeoutExpired:
+        raise ToolFailure("mypy worker timed out")
+    try:
+        if p.returncode != 0 or not os.path.exists(outp):
+            return None, (p.stdout + p.stderr)[-3000:]
+        return json.load(open(outp)), ""
+    finally:
+        for f in (inp, outp):
+            if os.path.exists(f):
+                os.remove(f)
+
+
+def locate_crash(ctx: Ctx, mods: list[dict], err: str) -> MypyCrash:
+    """mypy failed on this bundle: find the first class statement with which it fails (every prefix of a module
+    is self-contained), or give up with a ToolFailure if the failure does not reproduce on a single module."""
+    for m in mods:
+        r, e = _worker(ctx, [m], "loc")
+        if r is not None:
+            continue
+        lines = m["text"].split("\n")[:-1]
+        lo, hi = 0, len(lines)            # prefix of length lo is fine (0 lines), hi fails
+        while hi - lo > 1:
+            mid = (lo + hi) // 2
+            r2, e2 = _worker(ctx, [{"name": m["name"], "text": "\n".join(lines[:mid]) + "\n", "where": {}}], "loc")
+            if r2 is None:
+                hi, e = mid, e2
+            else:
+                lo = mid
+        return MypyCrash(int(m["every"][hi] if hi in m["every"] else m["every"][str(hi)]), e)
+    raise ToolFailure("mypy worker failed, but not on any single module:\n" + err)
+
+
 def run_mypy(ctx: Ctx, mods: list[dict], workers: int) -> dict[int, list]:
     if not mods:
         return {}
@@ -191,21 +239,13 @@ def run_mypy(ctx: Ctx, mods: list[dict], workers: int) -> dict[int, list]:
     bins: list[list[dict]] = [[] for _ in range(workers)]
     for m in sorted(mods, key=lambda m: -len(m["where"])):
         min(bins, key=lambda b: sum(len(x["where"]) for x in b)).append(m)
-
-    def one(i):
-        inp, outp = os.path.join(ctx.tmp, f"mro_in{i}.json"), os.path.join(ctx.tmp, f"mro_out{i}.json")
-        json.dump(bins[i], open(inp, "w"))
-        p = subprocess.run([PY, "-c", "import sys; from harness.c12.mro import mypy_worker; mypy_worker(sys.argv[1], sys.argv[2])",
-                            inp, outp], cwd=VERIF, env=repo_env(), capture_output=True, text=True, timeout=3000)
-        if p.returncode != 0 or not os.path.exists(outp):
-            raise ToolFailure("mypy worker failed:\n" + (p.stdout + p.stderr)[-3000:])
-        r = json.load(open(outp))
-        os.remove(inp); os.remove(outp)
-        return r
     res: dict[int, list] = {}
     with ThreadPoolExecutor(max_workers=workers) as ex:
-        for r in ex.map(one, range(workers)):
-            res.update({int(k): v for k, v in r.items()})
+        outs = list(ex.map(lambda i: _worker(ctx, bins[i], str(i)), range(workers)))
+    for i, (r, err) in enumerate(outs):
+        if r is None:
+            raise locate_crash(ctx, bins[i], err)
+        res.update({int(k): v for k, v in r.items()})
     return res
 
 
@@ -352,7 +392,17 @@ def run(ctx: Ctx) -> None:
         mpy[i], mmy[i] = split_model(line)
     # mypy
     mods = render_modules(nodes, ctx.pick(1500, 2500))
-    raw = run_mypy(ctx, mods, ctx.pick(4, 6))
+    try:
+        raw = run_mypy(ctx, mods, ctx.pick(4, 6))
+    except MypyCrash as e:
+        nd = nodes[e.nid]
+        tail = [ln for ln in e.text.strip().splitlines() if ln.strip()][-6:]
+        ctx.report({"sub": "mro", "class": "mypy-crashes-on-class-statement", "nbases": len(nd.written)},
+                   f"mypy fails (no result) on class statement {len(nd.path) + 1} of\n{class_source(nd, nodes)}\n  CPython: {nd.py}\n  "
+                   + "\n  ".join(tail),
+                   {"sub": "mro", "hierarchy": nd.hierarchy(nodes), "source": class_source(nd, nodes), "cpython": nd.py,
+                    "mypy_error": e.text[-1500:]})
+        return
     missing = [i for i in ids if i not in raw]
     if missing:
         raise ToolFailure(f"mypy results missing for {len(missing)} classes, e.g. K{missing[0]}")
@@ -444,7 +494,12 @@ def replay(ctx: Ctx, det: dict) -> int:
                 index = idx
         nodes[nid] = Node(nid, tuple(path), tuple(w), out, "replay")
         path.append(nid); classes.append(cls); alive.append(cls is not None)
-    raw = run_mypy(ctx, render_modules(nodes, 10 ** 9), 1)
+    try:
+        raw = run_mypy(ctx, render_modules(nodes, 10 ** 9), 1)
+    except MypyCrash as e:
+        print(class_source(nodes[len(h)], nodes))
+        print(f"mypy fails on class statement {e.nid}:\n" + e.text[-1500:])
+        return 1
     model = ctx.lean_driver(DRIVER, [hier_line(h)])[0].split(" | ")
     print(class_source(nodes[len(h)], nodes))
     rc = 0
